@@ -19,7 +19,7 @@ CHECKS = {
   note="The ground-truth table (name -> family -> Go type) is hand-written from the AS2 vocabulary; gob cells encode with the library's own encoder (no independent gob writer exists).",
   ref="DESIGN.md section 4, C07"),
  "C09": dict(
-  technique="rapid property tests of algebraic laws (reflexivity, nil laws, sensitivity under single-property mutation of a deep copy) + exhaustive nil-pair and single-cell layers; per-call watchdog",
+  technique="rapid property tests of algebraic laws (reflexivity, nil laws, sensitivity under single-property mutation of a deep copy) + exhaustive nil-pair, single-cell, single-change sensitivity and cross-type layers; per-call watchdog",
   text="ItemsEqual is exercised on every single-cell value, every everything-set value and thousands of random values (links, id-less objects, multi-language text, lists, value forms, IRIs): x==x, nil-likes equal each other and never a real item in either order, a deep copy differing in id/type/one named property is unequal in both orders, no panic, returns within a watchdog.",
   note="Sensitivity is asserted only for the properties the statement names and for identity-bearing replacement values of the same shape.",
   ref="DESIGN.md section 4, C09"),
@@ -39,7 +39,7 @@ CHECKS = {
   note="Items of the pool have pairwise non-equivalent ids as the statement requires; Remove goes through ToItemCollection(container) and is not offered for IRIs.",
   ref="DESIGN.md section 4, C13"),
  "C14": dict(
-  technique="bounded-exhaustive grid + rapid property tests against a reference IRI normaliser (differential oracle), reflexivity/symmetry laws on arbitrary strings",
+  technique="bounded-exhaustive grid + rapid property tests against a reference IRI normaliser (differential oracle), reflexivity/symmetry laws on arbitrary strings; native go fuzzing over string pairs in the thorough tier",
   text="Generated-input search: all ordered pairs of a 5400-IRI grid (thorough; a 150-row slice in quick) and random URL/mutation pairs are compared with an independent normaliser, which implies reflexivity, symmetry and transitivity on everything explored; arbitrary strings are checked for reflexivity and symmetry; IRIs.Contains against exists-Equals. Sampling beyond the grid does not prove absence.",
   note="Trusts net/url (used by both sides) and the reference normaliser written from the property statement; query strings are kept in one letter case as the property's domain says.",
   ref="DESIGN.md section 4, C14"),
@@ -69,7 +69,7 @@ CHECKS = {
   note="Only the observables the statement names are compared (entries behind the first one with the same tag are not observable through Get).",
   ref="DESIGN.md section 4, C19"),
  "C02": dict(
-  technique="independent JSON tokenizer (encoding/json token stream) + reflection accounting walk over value and output by jsonld tags; bounded-exhaustive benign cells and hostile position x constant grid + rapid random hostile values",
+  technique="independent JSON tokenizer (encoding/json token stream) + reflection accounting walk over value and output by jsonld tags; bounded-exhaustive benign cells and hostile position x constant grid + rapid random hostile values; native go fuzzing (position selector + string) in the thorough tier",
   text="Every MarshalJSON method and package MarshalJSON are run on all benign single-cell values, every-field-set values, 36 string positions x 42 hostile constants (quotes, backslashes, control characters, invalid UTF-8, injection payloads) and random values; the output must be one valid JSON value without repeated member names, every set property under its declared term with the prescribed JSON kind (RFC 3339, xsd:duration by an independent parser), every string decoding to exactly the bytes held, and no undeclared or unaccounted member.",
   note="encoding/json is the trusted tokenizer (it does not reject invalid UTF-8: checked separately); for non-UTF-8 byte strings only validity/no-duplicate/no-undeclared-member are asserted.",
   ref="DESIGN.md section 4, C02"),
@@ -84,7 +84,7 @@ CHECKS = {
   note="The writer shares no code with the library's encoder, so paired encoder/decoder mistakes are visible here.",
   ref="DESIGN.md section 4, C05"),
  "C06": dict(
-  technique="bounded-exhaustive constants x properties x forms x codecs + rapid random texts; byte-exact round-trip oracle on the text and on the set of (tag, text) pairs",
+  technique="bounded-exhaustive constants x properties x forms x codecs + rapid random texts; byte-exact round-trip oracle on the text and on the set of (tag, text) pairs, for the property of an object and for the language list on its own; native go fuzzing in the thorough tier",
   text="~95 troublesome valid UTF-8 texts and random strings (1..200 bytes, escape-biased alphabet) are stored in name/summary/content/preferredUsername/source.content, as single untagged/tagged values and as 2..4 language maps, and taken through 5 encode/decode entry pairs (2 JSON, 3 gob/binary); the bytes must come back identical and map tags must be preserved.",
   note="Texts are non-empty valid UTF-8 as the statement says; in JSON a lone tagged value may return untagged (documented normal form).",
   ref="DESIGN.md section 4, C06"),
